@@ -465,6 +465,11 @@ def run(c):
         c.known("C06-K1")
     elif k1:
         c.violation("a graph-level metric spelled like a model's measure captures the model's unqualified references", {"kind": "k1"})
+    k4 = replay_k4()
+    if k4 and c.is_open("C06-K4"):
+        c.known("C06-K4")
+    elif k4:
+        c.violation("a graph-level ratio over unqualified component names cannot be queried", {"kind": "k4"})
     k2 = replay_k2()
     if k2 and c.is_open("C06-K2"):
         c.known("C06-K2")
@@ -539,6 +544,22 @@ def replay_k1():
     return dbutil.canon_rows(a) != dbutil.canon_rows(b)
 
 
+def replay_k4():
+    """K4 witness: a graph-level RATIO whose numerator / denominator are written without their model (a graph-level DERIVED metric over the same bare names works)"""
+    from sidemantic import Metric, Model
+    L = dbutil.fresh_layer()
+    L.conn.execute("create table a(id bigint, v bigint)")
+    L.conn.execute("insert into a values (1, 5), (2, 7)")
+    L.add_model(Model(name="a", table="a", primary_key="id", metrics=[Metric(name="rev", agg="sum", sql="v"), Metric(name="cnt", agg="count")]))
+    L.add_metric(Metric(name="per_row", type="ratio", numerator="rev", denominator="cnt"))
+    L.add_metric(Metric(name="per_row_d", type="derived", sql="rev / cnt"))
+    try:
+        rows = L.conn.execute(L.compile(metrics=["per_row"], dimensions=[])).fetchall()
+    except Exception:
+        return True
+    return not (len(rows) == 1 and rows[0][0] == 6)
+
+
 def replay_k2():
     """K2 witness: graph-level derived metric a.rev + b.rev (the same measure name on two models)"""
     from sidemantic import Metric, Model, Relationship
@@ -576,6 +597,8 @@ def replay(path):
     r = body["replay"]
     if r.get("kind") == "k1":
         return 1 if replay_k1() else 0
+    if r.get("kind") == "k4":
+        return 1 if replay_k4() else 0
     if r.get("kind") == "k2":
         return 1 if replay_k2() else 0
     case = r["case"]
